@@ -285,11 +285,22 @@ func (f *Font) selectWidths() (float64, float64) {
 			maxWidth = w
 		}
 	}
+	if math.IsInf(minWidth, +1) {
+		// All glyphs use the default width, the nominal width is not used.
+		return defaultWidth, 0
+	}
 	nominalWidth := math.Round(sum / float64(numGlyphs))
 	if nominalWidth < minWidth+107 {
 		nominalWidth = minWidth + 107
 	} else if nominalWidth > maxWidth-107 {
 		nominalWidth = maxWidth - 107
+	}
+	// The width is stored in the charstring as a difference from the nominal
+	// width, and charstring numbers are limited to ±32767.
+	if nominalWidth < maxWidth-32767 {
+		nominalWidth = maxWidth - 32767
+	} else if nominalWidth > minWidth+32767 {
+		nominalWidth = minWidth + 32767
 	}
 	// The nominal width is stored as an integer in the private DICT.
 	nominalWidth = math.Round(nominalWidth)
